@@ -622,6 +622,17 @@ pub fn check(def: &'static PropDef, tier: &str, seed: u64) -> i32 {
         );
     }
     let min_budget = Duration::from_secs(if tier == "quick" { 45 } else { 180 });
+    // on request, also write a (minimised) replay file for each matched known finding
+    if std::env::var("VERIF_KNOWN_REPLAYS").is_ok() {
+        for k in known.iter().filter(|k| k.status == "open") {
+            let pick = co.agg.violations.iter().filter(|(_, o)| o.violations.iter().any(|(s, _)| *s == k.signature)).min_by_key(|(_, o)| o.wtape.len() + o.stape.len()).cloned();
+            if let Some((spec, out)) = pick {
+                let (mspec, _mout, tried) = minimise(&co, &spec, &out, &k.signature, min_budget);
+                let path = write_replay(&co, &mspec, &k.signature, &out, true, tried);
+                println!("known finding {} replay written: {path}", k.signature);
+            }
+        }
+    }
     for (sig, idxs) in unknown.iter().take(4) {
         nviol += idxs.len() as u64;
         // choose the run with the shortest tapes as the starting point
